@@ -71,7 +71,9 @@ type Outcome struct {
 func (o *Outcome) Key() string {
 	s := o.Status
 	if o.RErr != nil {
-		s += ":" + o.RErr.Kind
+		// the message names operand types: two policies failing at
+		// different operands are different outcomes
+		s += ":" + o.RErr.Kind + ":" + o.RErr.Msg
 	}
 	if o.CErr != nil {
 		s += ":" + o.CErr.Class
@@ -186,8 +188,8 @@ func Run(prog *lang.Program, inputs map[string]Value, pol Policy, cfg Config) (o
 		it.collect(out)
 	}()
 	fr := &frame{cells: map[int]*Cell{}}
-	it.execBlockNoScope(prog.Main.Kids, fr)
 	out.Status = "ok"
+	it.execBlockNoScope(prog.Main.Kids, fr)
 	return out
 }
 
@@ -205,15 +207,24 @@ type Config struct {
 func DefaultConfig() Config { return Config{MaxAllocs: -1} }
 
 func (it *Interp) collect(out *Outcome) {
+	total := 0
 	for _, d := range it.Info.Globals {
 		if !d.Root {
 			continue
 		}
 		if c, ok := it.globals[d.ID]; ok && c.V != nil {
 			out.Globals[d.Name] = c.V
+			total += TreeSize(c.V, maxTree)
 		} else {
 			out.Globals[d.Name] = Undef
 		}
+	}
+	if total > maxTree && out.Status != "abort" {
+		// exponentially shared structures: rendering the result is beyond
+		// the reference's bound
+		out.Status = "abort"
+		out.Abort = "size: result too large to render"
+		out.Globals = map[string]Value{}
 	}
 	out.Stats = it.Stats
 }
